@@ -24,6 +24,22 @@ type Mutant struct {
 	ExpectRule string `json:"expect_rule"`
 	ExpectKey  string `json:"expect_key,omitempty"`
 	Note       string `json:"note,omitempty"`
+	Nth        int    `json:"nth,omitempty"` // replace the nth occurrence (1-based); 0 = the fragment must be unique
+}
+
+// replaceNth replaces the nth (1-based) occurrence of old in s.
+func replaceNth(s, old, new string, n int) (string, bool) {
+	idx := 0
+	for i := 1; ; i++ {
+		j := strings.Index(s[idx:], old)
+		if j < 0 {
+			return s, false
+		}
+		if i == n {
+			return s[:idx+j] + new + s[idx+j+len(old):], true
+		}
+		idx += j + len(old)
+	}
 }
 
 type SeededMeta struct {
@@ -36,12 +52,14 @@ type SeededMeta struct {
 }
 
 type SelftestResult struct {
-	Applied      int              `json:"applied"`
-	Detected     int              `json:"detected"`
-	Missed       []string         `json:"missed"`
-	Stale        []string         `json:"stale"`
-	Undetectable []string         `json:"documented_not_statically_detectable"`
-	Details      []map[string]any `json:"details"`
+	Applied        int              `json:"applied"`
+	Detected       int              `json:"detected"`
+	Negative       int              `json:"negative_controls"`
+	NegativeSilent int              `json:"negative_controls_silent"`
+	Missed         []string         `json:"missed"`
+	Stale          []string         `json:"stale"`
+	Undetectable   []string         `json:"documented_not_statically_detectable"`
+	Details        []map[string]any `json:"details"`
 }
 
 func violKeys(r *Res, kf *KFFile) map[string]Obl {
@@ -101,12 +119,18 @@ func runSelftest(repo, verif string, def *PropDef, kf *KFFile) SelftestResult {
 	for _, m := range muts {
 		abs := filepath.Join(repo, m.File)
 		src, err := os.ReadFile(abs)
-		if err != nil || strings.Count(string(src), m.Old) != 1 {
+		mutated, okN := "", false
+		if err == nil && m.Nth > 0 {
+			mutated, okN = replaceNth(string(src), m.Old, m.New, m.Nth)
+		} else if err == nil && strings.Count(string(src), m.Old) == 1 {
+			mutated, okN = strings.Replace(string(src), m.Old, m.New, 1), true
+		}
+		if err != nil || !okN {
 			st.Stale = append(st.Stale, "mutant:"+m.Name)
 			st.Details = append(st.Details, map[string]any{"variant": "mutant:" + m.Name, "status": "stale (fragment not found exactly once in " + m.File + ")"})
 			continue
 		}
-		ov := map[string][]byte{abs: []byte(strings.Replace(string(src), m.Old, m.New, 1))}
+		ov := map[string][]byte{abs: []byte(mutated)}
 		det, fired, err := runVariant(repo, ov, def, kf, base, m.ExpectRule, m.ExpectKey)
 		d := map[string]any{"variant": "mutant:" + m.Name, "file": m.File, "expect_rule": m.ExpectRule, "expect_key": m.ExpectKey, "fired": fired}
 		if err != nil {
@@ -117,6 +141,19 @@ func runSelftest(repo, verif string, def *PropDef, kf *KFFile) SelftestResult {
 			continue
 		}
 		st.Applied++
+		if m.ExpectRule == "NEGATIVE" {
+			// behaviour-preserving variant: the rules must stay silent
+			st.Negative++
+			if len(fired) == 0 {
+				st.NegativeSilent++
+				d["status"] = "silent (negative control ok)"
+			} else {
+				st.Missed = append(st.Missed, "negative-control:"+m.Name+" FALSE ALARM")
+				d["status"] = "FALSE ALARM on behaviour-preserving variant"
+			}
+			st.Details = append(st.Details, d)
+			continue
+		}
 		if det {
 			st.Detected++
 			d["status"] = "detected"
